@@ -120,76 +120,117 @@ NAMED_ATTRS = {"action", "id", "ask_id", "bid_id", "reverse_size", "order_open",
                "bid_fee", "class", "quote_size", "base", "quote", "fee", "target_base"}
 
 
+def unauthorized(ev, pre):
+    """True when the sender of a privileged request lacks the role the property demands (judged on the
+    implementation's state before the request); None when the role cannot be judged (order absent)"""
+    cfg = pre.get("cfg")
+    if cfg is None:
+        return None
+    s = ev.sender
+    ai, bi = ev.ids()
+    if ev.sub == "cancel_ask":
+        a = pre["asks"].get(ai[0]) if ai else None
+        return None if a is None else a.owner != s
+    if ev.sub == "cancel_bid":
+        x = pre["bids"].get(bi[0]) if bi else None
+        return None if not isinstance(x, fmt.Bid) else x.owner != s
+    if ev.sub in ("expire_ask", "expire_bid", "reject_ask", "reject_bid", "execute_match", "modify_contract"):
+        return s not in cfg.executors
+    if ev.sub == "approve_ask":
+        return s not in cfg.approvers
+    return None
+
+
+def shape(m):
+    """mechanism-relevant part of a message: kind, denomination, positivity, source class, administrator"""
+    if m[0] == "bank":
+        return ("bank", tuple((d, amt > 0) for amt, d in m[2]))
+    if m[0] == "xfer":
+        return ("xfer", m[3][1], m[3][0] > 0, "self" if m[1] == SELF else "other", m[4] == SELF, m[2] == SELF)
+    return m
+
+
 def project(prop, b, ev, ctx):
-    """projection of block b for property prop; None = block not relevant to the property"""
+    """projection of block b for property prop: None (event not relevant) or (gate, value).  Model and
+    implementation are compared on `value` only when their gates agree: a property that says nothing about
+    whether a request is accepted has the outcome as its gate, one that does has it in the value."""
     k, sub = ev.kind, ev.sub
     is_exec = k in ("EXEC", "PEXEC")
+    ok = b.ok
     if prop == "C01":
-        if k in ("EXEC", "INST") and not ctx["migration"]:
-            return (b.ok, flows(b, ev) if k == "EXEC" else (), tuple(sorted(ask_amounts(a) for a in b.asks.values())),
-                    tuple(sorted(bid_amounts(x) for x in b.bids.values())))
+        if k == "EXEC" and not ctx["migration"]:
+            return (ok, (flows(b, ev), tuple(sorted(ask_amounts(a) for a in b.asks.values())),
+                         tuple(sorted(bid_amounts(x) for x in b.bids.values()))))
     elif prop == "C02":
         if is_exec and sub == "execute_match":
             ai, bi = ev.ids()
-            return (b.ok, flows(b, ev), tuple(ask_amounts(b.asks[i]) if i in b.asks else None for i in ai),
-                    tuple(bid_amounts(b.bids[i]) if i in b.bids else None for i in bi))
+            return (ok, (flows(b, ev), tuple(ask_amounts(b.asks[i]) if i in b.asks else None for i in ai),
+                         tuple(bid_amounts(b.bids[i]) if i in b.bids else None for i in bi)))
     elif prop == "C03":
         if is_exec and sub == "execute_match":
-            return (b.ok,)
+            return (None, ok)
     elif prop == "C04":
         if is_exec and sub in REVERSE:
             ai, bi = ev.ids()
-            return (b.ok, flows(b, ev), tuple(ask_amounts(b.asks[i]) if i in b.asks else None for i in ai),
-                    tuple(bid_amounts(b.bids[i]) if i in b.bids else None for i in bi))
+            val = (flows(b, ev), tuple(ask_amounts(b.asks[i]) if i in b.asks else None for i in ai),
+                   tuple(bid_amounts(b.bids[i]) if i in b.bids else None for i in bi))
+            explicit = sub in ("reject_ask", "reject_bid") and len(ev.args) > 1 and ev.args[1] != "-"
+            return (None, (ok, val)) if explicit else (ok, val)
     elif prop == "C05":
-        if is_exec and sub in PRIV:
-            return (b.ok, len(b.msgs) if b.ok else 0)
+        if is_exec and sub in PRIV and unauthorized(ev, ctx["pre"]):
+            return (None, (ok, len(b.msgs) if ok else 0))
     elif prop == "C06":
         if k == "PEXEC" and sub in ("cancel_ask", "cancel_bid", "expire_ask", "expire_bid"):
             ai, bi = ev.ids()
-            return (b.ok, flows(b, ev), tuple(i in b.asks for i in ai) if b.ok else (),
-                    tuple(i in b.bids for i in bi) if b.ok else ())
+            return (None, (ok, flows(b, ev), tuple(i in b.asks for i in ai) if ok else (),
+                           tuple(i in b.bids for i in bi) if ok else ()))
     elif prop == "C07":
         if is_exec and sub in ("create_ask", "create_bid"):
-            return (b.ok, tuple(b.msgs), book_lines(b))
+            return (None, (ok, tuple(b.msgs), book_lines(b)))
     elif prop == "C08":
         if is_exec and sub == "approve_ask":
-            return (b.ok, tuple(b.msgs), tuple(sorted((a.key, a.cls, a.size) for a in b.asks.values())))
-        if k in ("EXEC", "PEXEC") and b.ok:
-            return (tuple(sorted((a.key, a.cls, a.size) for a in b.asks.values())),)
+            ai, _ = ev.ids()
+            return (None, (ok, tuple(b.msgs), tuple((a.key, a.cls, a.size) for a in b.asks.values() if a.key in ai)))
+        if is_exec:
+            return (ok, tuple(sorted((a.key, a.cls, a.size) for a in b.asks.values() if a.cls[0] == "ready")))
     elif prop == "C09":
-        if is_exec and sub in ("execute_match", "create_bid", "cancel_bid", "expire_bid", "reject_bid"):
-            return (b.ok, flows(b, ev),
-                    tuple(sorted((x.key, x.fee, x.acc_fee, x.acc_quote) for x in b.bids.values()
-                                 if isinstance(x, fmt.Bid))))
+        if is_exec and sub == "create_bid":
+            _, bi = ev.ids()
+            return (None, (ok, tuple((x.key, x.fee) for x in b.bids.values() if isinstance(x, fmt.Bid) and x.key in bi)))
+        if is_exec and sub in ("execute_match", "cancel_bid", "expire_bid", "reject_bid"):
+            return (ok, (flows(b, ev), tuple(sorted((x.key, x.fee, x.acc_fee, x.acc_quote) for x in b.bids.values()
+                                                    if isinstance(x, fmt.Bid)))))
     elif prop == "C10":
         if k in ("EXEC", "PEXEC", "INST", "MIGRATE", "PMIGRATE"):
-            return (tuple(b.msgs),) if b.ok else ((),)
+            return (ok, tuple(shape(m) for m in b.msgs))
     elif prop == "C11":
         if k in ("EXEC", "PEXEC"):
-            return (b.ok, book_lines(b), line_of(b, "CFG"), line_of(b, "VER"))
+            return (ok, (book_lines(b), line_of(b, "CFG"), line_of(b, "VER")))
     elif prop == "C12":
         if is_exec and sub == "modify_contract":
-            return (b.ok, line_of(b, "CFG"))
+            return (None, (ok, line_of(b, "CFG")))
         if is_exec:
-            return (line_of(b, "CFG"),)
+            cl = line_of(b, "CFG")
+            return (None, (not ok) or ctx["pre_cfg_line"] is None or cl == ctx["pre_cfg_line"])
     elif prop == "C13":
         if k == "INST":
-            return (b.ok, line_of(b, "CFG"), line_of(b, "VER"), tuple(b.msgs))
+            return (None, (ok, line_of(b, "CFG"), line_of(b, "VER"), tuple(b.msgs)))
     elif prop == "C14":
         if k in ("MIGRATE", "PMIGRATE"):
-            return (b.ok, book_lines(b), line_of(b, "CFG"), line_of(b, "VER"), tuple(b.msgs))
+            return (None, (ok, tuple(l for l in b.lines if l.split(" ", 1)[0] in ("ASK", "ASKX")), line_of(b, "CFG"),
+                           line_of(b, "VER"), tuple(b.msgs)))
     elif prop == "C15":
         if k in ("MIGRATE", "PMIGRATE"):
-            return (b.ok, tuple(l for l in b.lines if l.split(" ", 1)[0] in ("BID3", "BID2", "BIDX")))
+            return (ok, tuple(l for l in b.lines if l.split(" ", 1)[0] in ("BID3", "BID2", "BIDX")))
         if ctx["migration"] and ctx["migrated"] and is_exec:
-            return (b.ok, flows(b, ev), tuple(sorted(bid_amounts(x) for x in b.bids.values())))
+            _, bi = ev.ids()
+            return (ok, (flows(b, ev), tuple(bid_amounts(b.bids[i]) if i in b.bids else None for i in bi)))
     elif prop == "C16":
         if k == "QUERY":
-            return (b.ok, tuple(b.qry) if b.qry else None, b.storage_changed)
+            return (None, (ok, tuple(b.qry) if b.qry else None, b.storage_changed))
     elif prop == "C17":
         if is_exec:
-            return (b.ok, tuple((a, v) for a, v in b.attrs if a in NAMED_ATTRS))
+            return (ok, tuple((a, v) for a, v in b.attrs if a in NAMED_ATTRS))
     return None
 
 
@@ -410,6 +451,40 @@ class Oracle:
                     filled = b0.rem_base - (n.rem_base if n is not None else 0)
                     if at.get("size") != str(filled) or at.get("ask_id") != ai[0] or at.get("bid_id") != bi[0]:
                         out.append(("C17", None, "match size/id attributes differ from what was executed"))
+        # ---- C09 fee exactness (rates judged exactly; pro-rata to the nearest unit, lower unit only on a tie)
+        if k == "EXEC" and self.cfg is not None and clean:
+            if ev.sub == "create_bid" and b.ok:
+                try:
+                    _, bi = ev.ids()
+                    nb = b.bids.get(bi[0])
+                    rate = parse_dec(self.cfg.bid_fee[1]) if self.cfg.bid_fee else Fraction(0)
+                    if isinstance(nb, fmt.Bid) and rate is not None and rate >= 0:
+                        exact = rate * nb.quote_amt
+                        q, r = divmod(exact.numerator, exact.denominator)
+                        want = q + 1 if 2 * r >= exact.denominator else q
+                        got = nb.fee[0] if nb.fee else 0
+                        if got != want:
+                            digits = self.cfg.bid_fee[1].replace("_", "").lstrip("+-").replace(".", "")
+                            cls = "K_rate" if int(digits or "0") * nb.quote_amt >= 2 ** 96 else None
+                            out.append(("C09", cls, "bid admitted with fee %d, exact rate*total rounds to %d" % (got, want)))
+                except Exception:
+                    pass
+            if ev.sub == "create_bid" and not b.ok and "panic" in (b.err or ""):
+                try:
+                    if max(int(ev.args[5]), int(ev.args[6])) >= 2 ** 96:
+                        out.append(("C07", "K_capacity", "create_bid with an amount >= 2^96 aborts"))
+                except Exception:
+                    pass
+            if b.ok:
+                for x in b.bids.values():
+                    if isinstance(x, fmt.Bid) and x.fee and x.quote_amt:
+                        exact = Fraction(x.fee[0] * x.rem_quote, x.quote_amt)
+                        q, r = divmod(exact.numerator, exact.denominator)
+                        tie = 2 * r == exact.denominator
+                        want = q + 1 if 2 * r >= exact.denominator else q
+                        if x.rem_fee != want and not (tie and x.rem_fee == q):
+                            cls = "K_prorata" if 20 * x.quote_amt * x.fee[0] > 10 ** 28 else None
+                            out.append(("C09", cls, "bid %s holds fee %d, pro-rata share is %d" % (x.key[:8], x.rem_fee, want)))
         # ---- C01 ledger (histories that start with an accepted instantiate, no seeds, clean)
         if k == "INST" and b.ok:
             self.started = True
